@@ -251,3 +251,17 @@ PLAN["C14"] = {
     "runs": runs([dict(MON16, budget=150), {"flavour": "miri", "shards": 8, "budget": 200, "timeout": 900}],
                  [dict(MON16, budget=900), {"flavour": "asan", "shards": 16, "scale": 0.1, "budget": 600}, {"flavour": "miri", "shards": 16, "budget": 600, "timeout": 2400}]),
 }
+
+PLAN["C11"] = {
+    "rule": "assembly: random triu P patterns (empty / diagonal only / off-diagonal only / mixed), random A, cone lists mixing Zero, NN, SOC below and above the sparse-expansion threshold, "
+            "Exp, Pow, GenPow, PSD, in BOTH triangle layouts: K square of order n+m+p, canonical, inside the requested triangle, every P/A entry at the coordinate and with the value the map "
+            "records, Hs blocks in the documented packing (diagonal / column-major packed triangle, transposed for tril), sparse-expansion vectors in their own auxiliary row/column over "
+            "the right cone rows, all index sets disjoint and covering nnz with only structural-zero diagonal fill left, diag_full/diagP exact. live: solvers stopped after 1..9 iterations "
+            "(qdldl=triu, faer=tril): KKT copy holds the user's P,A bitwise and unregularised, eliminating the auxiliary variables reproduces [P A';A -H] with H taken column by column from "
+            "the cones' own mul_Hs (1e-9), the engine's private copy differs from the KKT copy exactly by +-eps*dsigns on the full diagonal, recorded signs = (+n,-m,expansion signs) and "
+            "equal the pivot signs of QDLDL's D; non-trivial = distinct layout / live problem",
+    "assumptions": CONE_ASSUME + ["live state is read through the read-only KKT snapshot hook"],
+    "min_nontrivial": 200,
+    "runs": runs([dict(MON16, budget=120), {"flavour": "miri", "shards": 8, "budget": 200, "timeout": 900}],
+                 [dict(MON16, budget=600), {"flavour": "asan", "shards": 16, "scale": 0.2, "budget": 600}, {"flavour": "miri", "shards": 16, "budget": 600, "timeout": 2400}]),
+}
